@@ -11,7 +11,8 @@ exact reference the wrapper has to agree with:
   * `clipSimpleRaw`  segment clipped by a simple, possibly non-convex polygon: the parameters where
                      the segment meets the boundary (end points of collinear overlaps included)
                      cut [0,1] into pieces, a piece is kept iff its midpoint is strictly inside
-                     (even–odd rule, exact arithmetic, boundary points are NOT inside);
+                     (even–odd rule with the ray along the segment, exact arithmetic, boundary
+                     points are NOT inside);
   * `clipSimple`     … with adjacent pieces merged (shapely splits a segment at polygon vertices it
                      passes through; as point sets the pieces are the same);
   * `shClip`         Sutherland–Hodgman clipping of a planar polygon in 3d by closed half-spaces
@@ -187,8 +188,49 @@ def pairs : List Rat → List (Rat × Rat)
   | a :: b :: rest => (a, b) :: pairs (b :: rest)
   | _ => []
 
+/-! #### even–odd rule with the ray ALONG the clipped segment
+
+The point `s.at t` is tested with the ray that starts there and runs in the direction `q - p` of the
+segment itself.  For an edge `AB` the sides `sideOf s A`, `sideOf s B` and the point where the line
+of `s` meets the edge do not depend on `t`; only "the hit is ahead of the point" does.  This makes
+the rule provably constant along a piece that avoids the boundary (Props: `clip_simple_exact_evenodd`).
+For a simple polygon the parity does not depend on the direction of the ray; the driver also
+evaluates the textbook rule (horizontal ray, `insideStrictE`) and the harness checks that both select
+the same pieces. -/
+
+def lerp2 (A B : Pt) (t : Rat) : Pt := ⟨A.x + t * (B.x - A.x), A.y + t * (B.y - A.y)⟩
+
+/-- signed side of `A` relative to the directed line of `s` (positive = to the left) -/
+def sideOf (s : Seg) (A : Pt) : Rat := cross (s.q.sub s.p) (A.sub s.p)
+
+/-- the edge reaches from one side of the line of `s` to the other (half-open rule: a vertex on the
+    line counts as "not left") -/
+def spans (s : Seg) (e : Pt × Pt) : Bool := decide (0 < sideOf s e.1) != decide (0 < sideOf s e.2)
+
+/-- parameter (along `s`) of the point where the line of `s` meets a spanning edge -/
+def hitParam (s : Seg) (e : Pt × Pt) : Rat :=
+  param s (lerp2 e.1 e.2 (sideOf s e.1 / (sideOf s e.1 - sideOf s e.2)))
+
+/-- the ray from `s.at t` in direction `q - p` crosses the edge -/
+def rayHitsAlong (s : Seg) (e : Pt × Pt) (t : Rat) : Bool := spans s e && decide (t < hitParam s e)
+
+def oddAlong (s : Seg) : List (Pt × Pt) → Rat → Bool
+  | [], _ => false
+  | e :: es, t => (rayHitsAlong s e t) != (oddAlong s es t)
+
+/-- `s.at t` is strictly inside: not on the boundary and an odd number of crossings ahead -/
+def insideAlong (s : Seg) (es : List (Pt × Pt)) (t : Rat) : Bool :=
+  !onBoundaryE es (s.at t) && oddAlong s es t
+
 def midIn (s : Seg) (es : List (Pt × Pt)) (ab : Rat × Rat) : Bool :=
+  insideAlong s es ((ab.1 + ab.2) / 2)
+
+/-- the same selection with the textbook rule (horizontal ray) — cross-check only -/
+def midInStd (s : Seg) (es : List (Pt × Pt)) (ab : Rat × Rat) : Bool :=
   insideStrictE es (s.at ((ab.1 + ab.2) / 2))
+
+def clipSimpleRawStd (poly : List Pt) (s : Seg) : List (Rat × Rat) :=
+  if s.p = s.q then [] else (pairs (cutsE s (edges poly))).filter (midInStd s (edges poly))
 
 def clipSimpleRawE (es : List (Pt × Pt)) (s : Seg) : List (Rat × Rat) :=
   if s.p = s.q then [] else (pairs (cutsE s es)).filter (midIn s es)
@@ -262,5 +304,49 @@ def vecAreaAux (first : P3) : List P3 → P3
 def vecArea2 : List P3 → P3
   | [] => ⟨0, 0, 0⟩
   | a :: rest => vecAreaAux a (a :: rest)
+
+/-! ### Sutherland–Hodgman in the plane of the polygon
+
+`polygons_by_polyhedron` clips PLANAR polygons.  In coordinates `(u, v)` of the polygon's plane
+(`embed O U V (u, v) = O + u U + v V`) a half-space of the polyhedron becomes a half-plane
+(`pullHS`) and the 3d algorithm becomes the same algorithm in 2d (`Props.sh_clip_planar`).  The
+completeness theorems are stated for the 2d form, for convex counter-clockwise polygons. -/
+
+def shEdge2 (h : HP) (P Q : Pt) : List Pt :=
+  let fp := h.eval P
+  let fq := h.eval Q
+  (if fp ≤ 0 then [P] else []) ++
+  (if (fp < 0 ∧ 0 < fq) ∨ (0 < fp ∧ fq < 0) then [lerp2 P Q (fp / (fp - fq))] else [])
+
+/-- contributions of the edges `cur → n₁ → n₂ → …` -/
+def walk2 (h : HP) : Pt → List Pt → List Pt
+  | _, [] => []
+  | cur, nxt :: rest => shEdge2 h cur nxt ++ walk2 h nxt rest
+
+/-- clip a polygon (vertex list) by one half-plane -/
+def shClip12 (h : HP) : List Pt → List Pt
+  | [] => []
+  | a :: rest => walk2 h a (rest ++ [a])
+
+def shClip2 : List HP → List Pt → List Pt
+  | [], poly => poly
+  | h :: hs, poly => shClip2 hs (shClip12 h poly)
+
+/-- `cross (B - A) (X - A)`: non-negative iff `X` is to the left of (or on) the directed line `A → B` -/
+def leftOf (A B X : Pt) : Rat := cross (B.sub A) (X.sub A)
+
+/-- the region bounded by the edges of a counter-clockwise polygon (H-representation) -/
+def InPoly (poly : List Pt) (X : Pt) : Prop := ∀ e ∈ edges poly, 0 ≤ leftOf e.1 e.2 X
+
+/-- convex and counter-clockwise: every vertex is to the left of (or on) every edge -/
+def ConvexCCW (poly : List Pt) : Prop := ∀ V ∈ poly, InPoly poly V
+
+def embed (O U V : P3) (p : Pt) : P3 :=
+  ⟨O.x + p.x * U.x + p.y * V.x, O.y + p.x * U.y + p.y * V.y, O.z + p.x * U.z + p.y * V.z⟩
+
+/-- the half-space in the coordinates of the plane `O + u U + v V` -/
+def pullHS (O U V : P3) (h : HS) : HP :=
+  ⟨h.a * U.x + h.b * U.y + h.c * U.z, h.a * V.x + h.b * V.y + h.c * V.z,
+   h.d - (h.a * O.x + h.b * O.y + h.c * O.z)⟩
 
 end PorepyVerif.C44
